@@ -436,7 +436,9 @@ func injectTable(c *core.Ctx, maxLen int) (rs rows, runs int, undecided string) 
 								in.Elems = append(in.Elems, m)
 							}
 							t.invokeN["Kind"] = func(ip *absint.Interp, args []absint.Value) absint.Value { return absint.Int(kind) }
-							t.invokeN["Elem"] = func(ip *absint.Interp, args []absint.Value) absint.Value { return absint.NewTok("elem(fieldType)", "type") }
+							t.invokeN["Elem"] = func(ip *absint.Interp, args []absint.Value) absint.Value {
+								return absint.NewTok("elem(fieldType)", "type")
+							}
 							t.invokeN["AssignableTo"] = func(ip *absint.Interp, args []absint.Value) absint.Value {
 								ty, _ := args[0].(*absint.Tok)
 								return absint.Bool(ty != nil && strings.Contains(ty.ID, "ProxyMeta"))
